@@ -33,9 +33,19 @@ def run(chk):
     fn = chk.fn(VIS, "buildRemainingTreeAsLists", canonical=True)
     where = f"{VIS}:buildRemainingTreeAsLists"
     params = [a.arg for a in fn.args.args]
-    if len(params) != 4:
-        raise AnalysisError("buildRemainingTreeAsLists: unexpected signature")
-    c, S_, WO, IRV = params
+    # the subtree at (c, S) is a function of c, S and the two assertion lists it is given: no further parameter (a cache with a
+    # mutable default would persist across calls and across assertion sets), no module-level state
+    mutable_defaults = [norm(d) for d in fn.args.defaults + [d for d in fn.args.kw_defaults if d is not None]
+                        if isinstance(d, (ast.Dict, ast.List, ast.Set, ast.Call))]
+    glob = [norm(x) for x in walk_local(fn) if isinstance(x, (ast.Global, ast.Nonlocal))]
+    pure_sig = len(params) == 4 and not fn.args.kwonlyargs and not fn.args.vararg and not fn.args.kwarg and not mutable_defaults and not glob
+    chk.ob("C20.R3", where, "node-is-a-function-of-its-four-arguments", pure_sig,
+           "buildRemainingTreeAsLists(c, S, WOLosers, IRVElims) has exactly these four parameters, no mutable default and no "
+           "global state: the tree built for one assertion set cannot leak into the tree built for another",
+           node=fn, strength="N", parameters=params, mutable_defaults=mutable_defaults)
+    if len(params) < 4:
+        raise AnalysisError("buildRemainingTreeAsLists: fewer than four parameters")
+    c, S_, WO, IRV = params[:4]
     # The canonical form (canon.inline_aliases) has turned "flag + filter-append loop" into
     #     TAGS = [tag for i, a in enumerate(LIST) if test]        and the flag into        TAGS1 or TAGS2
     # so the function is read as: two tag lists, one decision, three outcomes -- however the maintainers spell it.
